@@ -54,6 +54,7 @@ def run(F, R, ctx):
     jitmodel.name_table_gate_rule(F, R, "C02.n")
     jitmodel.branch_facts_rule(F, R, "C02.f")
     jitmodel.assigned_local_rule(F, R, "C02.k")
+    jitmodel.tier_error_agreement_rule(F, R, "C02.q")
     from . import c03
     c03.jit_move_rule(F, R, "C02.m")
 
